@@ -8,6 +8,7 @@ G  family A: every (lengths, joints) case of TParam realised as a chain of axis-
    iscontinuous / isclosed / continuous_subpaths vs the model's runs, and self-coherence of
    T2t / t2T / point / occupancy against the real cumulative lengths.
 """
+import math
 import random
 from fractions import Fraction
 
@@ -252,8 +253,68 @@ def family_b(ck, n, jn, closing, runs, rnd, variant):
         coherent(der, [type(sg)(*sg.bpoints()) for sg in der], '/scaled-copy-of-a-measured-path')
 
 
+def directed_cases(ck):
+    site = 'svgpathtools/path.py:Path.iscontinuous/isclosed/continuous_subpaths/T2t'
+
+    def bad(key, what, exp, obs):
+        ck.disagree(key='Path/' + key, site=site, what=what, case={'directed': key, 'what': what[:200]}, expected=exp, observed=obs, driver='directed')
+    # (1) isclosed is the coincidence of the last end with the first start - whatever closed flag the object carries from its d-string or from `.closed = True`
+    cases = []
+    p = sp.parse_path('M0,0 L1,0 L1,1 Z L1,0')
+    cases.append(('d-string that keeps drawing after Z', p))
+    p = sp.parse_path('M0,0 L1,0 L1,1 Z')
+    p.append(sp.Line(0j, 1 + 0j))
+    cases.append(('Z-closed path, then append(Line(start, interior joint))', p))
+    p = sp.parse_path('M0,0 L1,0 L1,1 Z')
+    p[-1] = sp.Line(1 + 1j, 1 + 0j)
+    cases.append(('Z-closed path, last segment replaced by one ending on an interior joint', p))
+    p = sp.Path(sp.Line(0j, 1 + 0j), sp.Line(1 + 0j, 1 + 1j), sp.Line(1 + 1j, 0j))
+    try:
+        p.closed = True
+    except Exception:      # noqa
+        pass
+    p.append(sp.Line(0j, 1 + 0j))
+    cases.append(('.closed = True, then append', p))
+    for tag, p in cases:
+        ck.case(fp=('isclosed-flag', tag), nontrivial=True)
+        want = p[0].start == p[-1].end
+        try:
+            got = p.isclosed()
+        except Exception as e:      # noqa
+            got = e
+        if got is not want and got != want:
+            bad('isclosed/closed-flag-history', '%s: isclosed() = %r, start %r end %r' % (tag, got, p[0].start, p[-1].end), want, repr(got))
+    # (2) joints that are distinct by a hair (round-off, micro-scale drawings) are breaks: iscontinuous and continuous_subpaths agree, every sub-path is continuous
+    for tag, p in (('0.1 + 0.2 vs 0.3', sp.Path(sp.Line(0j, complex(0.1 + 0.2, 0)), sp.Line(complex(0.3, 0), 1 + 0j), sp.Line(1 + 0j, 1 + 1j))),
+                   ('coordinates of order 1e-13', sp.Path(sp.Line(0j, 1e-13 + 0j), sp.Line(2e-13 + 0j, 3e-13 + 1e-13j), sp.Line(3e-13 + 1e-13j, 0j))),
+                   ('one ulp apart', sp.Path(sp.QuadraticBezier(0j, 1 + 1j, 2 + 0j), sp.Line(complex(math.nextafter(2.0, 3), 0), 3 + 3j)))):
+        ck.case(fp=('hairline-break', tag), nontrivial=True)
+        subs = p.continuous_subpaths()
+        nbreaks = sum(1 for a_, b_ in zip(p, list(p)[1:]) if a_.end != b_.start)
+        if p.iscontinuous() != (nbreaks == 0) or len(subs) != nbreaks + 1 or not all(s_.iscontinuous() for s_ in subs) or sp.concatpaths(subs) != p:
+            bad('continuous_subpaths/hairline-break', '%s: iscontinuous() = %r, %d sub-paths %s for %d breaks' % (tag, p.iscontinuous(), len(subs), [len(s_) for s_ in subs], nbreaks),
+                nbreaks + 1, len(subs))
+    # (3) a member that returns to its own start is not a point: it occupies its arc-length share of T
+    for loop in (sp.CubicBezier(1 + 0j, 3 + 2j, 3 - 2j, 1 + 0j), sp.QuadraticBezier(1 + 0j, 1 + 3j, 1 + 0j)):
+        p = sp.Path(sp.Line(0j, 1 + 0j), loop, sp.Line(1 + 0j, 1 - 2j))
+        ck.case(fp=('loop-member', repr(loop)), nontrivial=True)
+        lens = [s_.length() for s_ in p]
+        tot = sum(lens)
+        cum = [sum(lens[:i]) / tot for i in range(4)]
+        try:
+            mid = (cum[1] + cum[2]) / 2
+            k, t = p.T2t(mid)
+            ok = k == 1 and abs(p.t2T(1, 1.0) - cum[2]) <= 1e-9 and abs(p.t2T(1, 0.0) - cum[1]) <= 1e-9 and abs(p.point(mid) - loop.point(t)) <= 1e-9 and abs(p.length() - tot) <= 1e-9 * tot
+        except Exception as e:      # noqa
+            ok, k, t = False, e, None
+        if not ok:
+            bad('T2t/member-returning-to-its-start', '%r between two lines: T2t(middle of its share %r) = %r, t2T(1, 1) = %r (expected %r), length %r (sum %r)' % (
+                loop, mid, (k, t), p.t2T(1, 1.0), cum[2], p.length(), tot), [1, cum[1], cum[2]], repr((k, t)))
+
+
 def run(ck):
     rnd = random.Random(ck.seed)
+    directed_cases(ck)
     quick = ck.tier == 'quick'
     ck.rules.append('A: case = (segment lengths, joint pattern) of TParam.tla with every T = j/(2 total); distinct by (lengths, joints); '
                     'non-trivial = >= 2 segments. B: case = (n, joint pattern, closing joint, geometry variant) with mixed L/Q/C/A')
